@@ -351,6 +351,11 @@ func genCfg(rt *rapid.T) hcfg {
 	c := hcfg{Strategy: rapid.SampledFrom(lab.Strategies).Draw(rt, "strategy"), N: rapid.IntRange(1, 3).Draw(rt, "n"),
 		Threshold: rapid.IntRange(1, 4).Draw(rt, "threshold"), WindowS: rapid.IntRange(1, 5).Draw(rt, "window"),
 		Passive: rapid.IntRange(0, 3).Draw(rt, "passive") > 0, Active: rapid.Bool().Draw(rt, "active")}
+	if c.Active && !c.Passive && rapid.IntRange(0, 3).Draw(rt, "window_unset") == 0 {
+		// passive checks off and no unhealthy_timeout configured: a probe ejection lasts 0 s, the backend is eligible
+		// again with the next request ("the configured unhealthy window" is empty)
+		c.WindowS = 0
+	}
 	if c.Active {
 		// probe rounds shorter and (much) longer than the unhealthy window
 		c.IntervalS = rapid.SampledFrom([]int{2, 3, 4, 5, 5, 30, 600}).Draw(rt, "interval")
@@ -373,6 +378,7 @@ func TestC04HealthStateMachine(t *testing.T) {
 		c := genCfg(rt)
 		steps := rapid.IntRange(1, maxLen).Draw(rt, "steps")
 		var viol string
+		probedAll := false
 		var w *world
 		fn := lab.NewFakeNet()
 		fn.WithDefaultTransport(func() {
@@ -545,9 +551,31 @@ func TestC04HealthStateMachine(t *testing.T) {
 						viol = w.invariant()
 					}
 				}
+				// active checks probe EVERY backend every interval: after one full round (+ its timeout) a backend that
+				// was never ejected (ejected backends are legitimately skipped) has been asked at least once
+				if viol == "" && c.Active && c.N >= 2 && time.Since(w.t0) > time.Duration(c.IntervalS+c.TimeoutS+1)*time.Second {
+					w.settle()
+					probed := map[string]int{}
+					for _, p := range fn.ProbeLog() {
+						probed[p.Host]++
+					}
+					for i := 0; i < c.N; i++ {
+						h := lab.BackendHost(i)
+						if len(w.b[h].ejects) == 0 && len(w.b[h].maybe) == 0 && probed[h] == 0 && fn.ParkedProbes(h) == 0 {
+							viol = fmt.Sprintf("R3: active checks are on (interval %d s) and %v have passed, but %s - never ejected - has not received a single health probe (probes per backend: %v)", c.IntervalS, time.Since(w.t0).Round(time.Millisecond), lab.BackendName(i), probed)
+						}
+					}
+					probedAll = true
+				}
 			})
 		})
 		labels := []string{c.Strategy, fmt.Sprintf("threshold%d", c.Threshold)}
+		if probedAll {
+			labels = append(labels, "probe-round-completed")
+		}
+		if c.WindowS == 0 {
+			labels = append(labels, "unhealthy-timeout-unset")
+		}
 		if c.Active {
 			labels = append(labels, "active-on")
 		} else {
